@@ -168,7 +168,7 @@ class SourceFile:
         segs = [s.strip() for s in re.split(r'\s+::\s+', path_expr.strip())]
 
         def match(items, seg):
-            kind = seg.split()[0]
+            kind = re.match(r'[A-Za-z_]+', seg).group(0)
             hits = []
             for it in items:
                 if it.kind in ('impl', 'trait') and kind == it.kind:
